@@ -18,4 +18,9 @@ theorem pruneIntermediate_tie (f : KD.Bytes) :
     two 32-byte halves stands for -/
 theorem carrySteps_tie : Gen.KDUnroll.carrySteps = List.range 32 := by decide
 
+/-- chainkd.go and expanded_key.go declare no package-level variables: derivation and signing are
+    functions of their arguments (no pooled / cached state shared between calls or goroutines) -/
+theorem no_package_state :
+    Gen.KDUnroll.chainkdPackageVars = [] ∧ Gen.KDUnroll.expandedKeyPackageVars = [] := by decide
+
 end BytomModel.Ties.C28
